@@ -11,6 +11,9 @@ from .constants import boltzmann
 
 def poisson_prob_scale(x: ArrayLike):
     """Computes (1 - exp(-x))/x which is needed when scaling Poisson probabilities"""
+    x = np.asarray(x)
+    if not np.issubdtype(x.dtype, np.inexact):
+        x = x.astype(np.float64)  # integer/bool input: -x wraps for unsigned types, small ints lose precision
     with warnings.catch_warnings():
         warnings.filterwarnings('ignore')
         out = np.where(np.absolute(x) < 1e-3,
